@@ -67,8 +67,9 @@ class _ProbeEffect(Effect):
 
 
 class Built:
-    def __init__(self, program, log=None, cache_factory=None, share=None):
+    def __init__(self, program, log=None, cache_factory=None, share=None, mutate_args=False):
         self.program = program
+        self.mutate_args = mutate_args  # user bodies / steps edit their own arguments in place (they own them)
         self.log = log if log is not None else Log()
         self.cache_factory = cache_factory
         self.ds_objs = {}  # id -> Dataset
@@ -89,9 +90,16 @@ class Built:
         defaults = [e.result if i % 2 else e for i, e in enumerate(defaults)]  # (the documented typing aid returns the expression itself)
         pid = f"ds{did}:{tag}"
 
+        mutate = self.mutate_args
+
         def body(**kw):
             args = [realise(kw[n]) for n in names]
             log.hit("body", pid, canon(args))
+            if mutate:
+                from .hostile import scribble
+
+                for n in names:
+                    scribble(kw[n])
             return (f"ds{did}", tag) + tuple(args)
 
         body.__signature__ = _sig(names, defaults)
@@ -117,9 +125,18 @@ class Built:
         pid = _pid(fn, "st", fn["name"])
         sname = fn["name"]
 
+        mutate = self.mutate_args
+
         def step(x, **kw):
             log.hit("step", pid)
-            return ("step", sname, realise(x), tuple(realise(kw[n]) for n in names))
+            out = ("step", sname, realise(x), tuple(realise(kw[n]) for n in names))
+            if mutate:
+                from .hostile import scribble
+
+                scribble(x)
+                for n in names:
+                    scribble(kw[n])
+            return out
 
         step.__signature__ = _sig(names, defaults, first_positional="x")
         step.__name__ = f"step_{sname}"
@@ -433,5 +450,5 @@ class Built:
             self.caches.append((f"ds{did}/{tag}", new.cache))
 
 
-def build(program, log=None, cache_factory=None):
-    return Built(program, log, cache_factory)
+def build(program, log=None, cache_factory=None, mutate_args=False):
+    return Built(program, log, cache_factory, mutate_args=mutate_args)
